@@ -44,7 +44,7 @@ TOLERATED = {"__new__", "__annotations__"}
 
 
 def GATES(tier):
-    return [("decorations_judged", 300), ("occupied_variants", 200), ("names_identity_checked", 2000), ("user_member_behaviour_checked", 200), ("private_cases", 2), ("collision_cases", 3), ("unmanaged_key_collision_cases", 2),
+    return [("decorations_judged", 300), ("occupied_variants", 200), ("names_identity_checked", 2000), ("user_member_behaviour_checked", 200), ("private_cases", 2), ("collision_cases", 3), ("unmanaged_key_collision_cases", 2), ("second_order_collision_cases", 2),
             ("mode:annotations", 10), ("mode:attrs", 10), ("mode:attrs_typed", 10), ("mode:attrs_skip", 10), ("mode:mixed_typed_skip_empty", 5), ("mode:mixed_typed_exclusive", 5), ("mode:mixed_attrs_skip_empty", 5), ("subclass_cases", 10), ("super_delegation_cases", 4)] + [(f"occupant:{o}", 20) for o in OCCUPANTS]
 
 
@@ -476,6 +476,45 @@ class D(Q):
             problems = [f"{type(e).__name__}: {e}"]
         if problems:
             ctx.violation("only_documented_helpers_added", f"collection known only as the parent's key + colliding subclass attribute (bootstrap={boot}): {problems}", features={"case": "collision_unmanaged_key", "lazy": not boot}, case=["collision6", boot])
+    # a second collection whose natural singular is the fallback name the first one took: falls back again (or refuses)
+    src7 = HEAD + '''
+@spec_class(bootstrap=BOOT)
+class T:
+    tag: str = "t"
+    tags: List[int] = [1, 2]
+    tags_items: Dict[str, str] = {"k": "v"}
+'''
+    for boot in (True, False):
+        ctx.count("collision_cases")
+        ctx.count("second_order_collision_cases")
+        try:
+            T = cg.exec_module(src7.replace("BOOT", str(boot)), prefix="verif_c16t").__dict__["T"]
+            t = T()
+            attrs = T.__spec_class__.attrs
+            n1, n2 = attrs["tags"].item_name, attrs["tags_items"].item_name
+            problems = []
+            if n1 == n2:
+                problems.append(f"both collections publish their element helpers as *_{n1}")
+            else:
+                for attr, nm in (("tags", n1), ("tags_items", n2)):
+                    missing = [f"{v}_{nm}" for v in ("with", "update", "transform", "without") if not hasattr(T, f"{v}_{nm}")]
+                    if missing:
+                        problems.append(f"{attr}: no {missing}")
+                if not problems:
+                    r = getattr(t, f"with_{n1}")(3)
+                    if r.tags != [1, 2, 3] or r.tags_items != {"k": "v"}:
+                        problems.append(f"with_{n1} (element helper of tags) gave tags={r.tags!r}, tags_items={r.tags_items!r}")
+                    r = getattr(t, f"with_{n2}")("z", "w")
+                    if r.tags_items != {"k": "v", "z": "w"} or r.tags != [1, 2]:
+                        problems.append(f"with_{n2} (element helper of tags_items) gave tags_items={r.tags_items!r}, tags={r.tags!r}")
+                    if t.with_tag("u").tag != "u":
+                        problems.append("with_tag no longer sets the scalar")
+        except RuntimeError:
+            problems = []  # refusing the combination is the documented alternative
+        except Exception as e:
+            problems = [f"{type(e).__name__}: {e}"]
+        if problems:
+            ctx.violation("singular_collision_fallback", f"tag + tags + tags_items (bootstrap={boot}): {problems}", features={"case": "collision_second_order", "lazy": not boot}, case=["collision7", boot])
     src2 = HEAD + '''
 class T:
     child: int = 0
